@@ -173,6 +173,8 @@ def gen_world(rng, focus=None):
             k = rng.randrange(len(t["checks"]))
             t["checks"][k]["fail"] = True
             t["checks"][k]["expected"] = t["fail"] == "check-expected"
+        if t["fail"].startswith("missing") and "no-cache" not in t["tags"] and rng.random() < 0.35:
+            t["tags"].append("no-cache")                                   # the output path that bypasses the cache has its own code
         if t["fail"] == "exit" and rng.random() < (0.5 if cfg["fail_fast"] else 0.2):
             t["noise"] = rng.choice([1, 70, 300])                          # kB printed before failing: repeated in grog's report
     # history
@@ -230,7 +232,15 @@ def gen_world(rng, focus=None):
     if rng.random() < (0.3 if f4 else 0.12):
         interrupt = {"signal": rng.choice(["SIGINT", "SIGTERM"]), "delay": rng.choice([0.25, 0.5, 0.9]), "build": rng.randrange(nb)}
     slow_reader = 0
-    return {"cfg": cfg, "targets": targets, "history": history, "interrupt": interrupt, "healed_at_start": healed, "slow_reader": slow_reader}
+    # the command: `grog build //...`, or `grog test //...` (tests and what they depend on; same report, same exit status rules)
+    cmd = "build"
+    if rng.random() < (0.3 if f5 else 0.15):
+        leaves = [t for t in targets if t["id"] not in {d for u in targets for d in u["deps"]} and not t["cmdless"] and not t["bin"]]
+        for t in rng.sample(leaves, min(len(leaves), rng.randint(1, 3))):
+            t["test"] = True
+        if any(t["test"] for t in targets):
+            cmd = "test"
+    return {"cfg": cfg, "targets": targets, "history": history, "interrupt": interrupt, "healed_at_start": healed, "slow_reader": slow_reader, "cmd": cmd}
 
 
 def features(world):
@@ -308,6 +318,13 @@ def features(world):
         f.add("healed-at-start")
     if world.get("slow_reader"):
         f.add("slow-reader")
+    if world.get("cmd", "build") != "build":
+        f.add("cmd:" + world["cmd"])
+        if any(t["fail"] and not t["test"] for t in world["targets"]):
+            f.add("cmd:test+failing-non-test")
+    for t in world["targets"]:
+        if t["fail"] and t["fail"].startswith("missing") and ("no-cache" in t["tags"] or not cfg["enable_cache"]):
+            f.add("missing-output+uncached")
     if world.get("designed"):
         f.add("designed:" + world["designed"])
     return f
@@ -491,7 +508,7 @@ class World:
 
     def build(self, interrupt=None):
         t0 = time.time()
-        p = subprocess.Popen([self.grog, "build", "//..."], cwd=self.ws, env=self.env(), stdout=subprocess.PIPE, stderr=subprocess.STDOUT, text=True,
+        p = subprocess.Popen([self.grog, self.world.get("cmd", "build"), "//..."], cwd=self.ws, env=self.env(), stdout=subprocess.PIPE, stderr=subprocess.STDOUT, text=True,
                              errors="replace", start_new_session=True)
         sig_at, sig_ns = None, None
         if interrupt:
@@ -972,9 +989,16 @@ def check_build(w, world, b, anc, ids, succeeded_ever, need_run, disturbed, inte
             if late:
                 V("C05", "command-started-after-fail-fast", f"--fail-fast: commands started more than 1 s after the first failure: {late[:5]}")
     # ---- C04 / C05: every selected target resolved; failures and never-built targets are attempted -------------------
-    sel = [i for i in range(n) if not T[i]["test"]]          # `grog build` does not select test targets
-    for i in (set(started) | set(check_started)) - set(sel):
-        V("C03", "unselected-target-started", f"{name(T[i])} is a test target, `grog build` does not select it, but it ran")
+    if world.get("cmd") == "test":
+        # `grog test` selects the test targets and what they depend on
+        tests = [i for i in range(n) if T[i]["test"]]
+        sel = sorted(set(tests) | {a for i in tests for a in anc[i]})
+        for i in (set(started) | set(check_started)) - set(sel):
+            V("C03", "unselected-target-started", f"{name(T[i])} is neither a test nor a dependency of one, `grog test` does not select it, but it ran")
+    else:
+        sel = [i for i in range(n) if not T[i]["test"]]          # `grog build` does not select test targets
+        for i in (set(started) | set(check_started)) - set(sel):
+            V("C03", "unselected-target-started", f"{name(T[i])} is a test target, `grog build` does not select it, but it ran")
     if not cfg["fail_fast"]:
         for i in sel:
             t = T[i]
@@ -988,7 +1012,7 @@ def check_build(w, world, b, anc, ids, succeeded_ever, need_run, disturbed, inte
                 V("C05" if i in succeeded_ever or True else "C04", "target-not-attempted",
                   f"{name(t)} {why} and none of its transitive dependencies failed, but it was not run by this keep-going build (exit {rc})")
     m = re.search(r"(\d+) targets? completed", out)
-    if rc == 0 and m and int(m.group(1)) != len(sel):
+    if rc == 0 and m and int(m.group(1)) != len(sel) and world.get("cmd", "build") == "build":
         V("C04", "selected-target-unresolved", f"the build exited 0 but reports {m.group(1)} of {len(sel)} selected targets completed")
     # ---- bookkeeping ----------------------------------------------------------------------------------------------------
     cmdless_ok = {i for i in check_started if T[i]["cmdless"] and i not in failed_now}
@@ -1066,6 +1090,32 @@ def designed_worlds(rng, focus):
             for i in range(1, 10):
                 T.append(_blank_target(i, sleep=0.1, timeout=rng.choice(["20s", "120s", "1h"]) if rng.random() < 0.8 else None))
             out.append(dict(base, designed="ff-bystanders", cfg=dict(cfg0, num_workers=workers, fail_fast=True), targets=T, history=[{"op": "build"}]))
+        # `grog test`: the failing target is a NON-test dependency of a selected test (every failure kind), next to a healthy
+        # library with its test and a failing test
+        T = []
+        for kind in ("exit", "tail-and", "timeout", "missing-last", "check", "check-expected"):
+            i = len(T)
+            lib = _blank_target(i, fail=kind, timeout="400ms" if kind == "timeout" else None)
+            if kind.startswith("check"):
+                lib["checks"] = [{"sleep": 0, "expected": kind == "check-expected", "fail": True, "banner": None}]
+            T.append(lib)
+            T.append(_blank_target(i + 1, deps=[i], test=True))
+        i = len(T)
+        T += [_blank_target(i), _blank_target(i + 1, deps=[i], test=True), _blank_target(i + 2, fail="exit", test=True), _blank_target(i + 3)]
+        out.append(dict(base, designed="test-failing-dependency", cmd="test", cfg=dict(cfg0, num_workers=4), targets=T,
+                        history=[{"op": "build"}, {"op": "nothing"}, {"op": "build"}]))
+        # a declared output that is not created x the output path that bypasses the cache (`no-cache` tag / cache disabled)
+        for uncached in ("tag", "cache-disabled"):
+            T = []
+            for kind, outs in (("missing-last", lambda i: [("file", f"t{i}.out", 0)]), ("missing-first", lambda i: [("file", f"t{i}.o0", 0), ("file", f"t{i}.o1", 0)]),
+                               ("missing-middle", lambda i: [("file", f"t{i}.o{k}", 0) for k in range(3)]), ("missing-dir", lambda i: [("dir", f"d{i}_0", 0), ("file", f"t{i}.out", 0)])):
+                i = len(T)
+                T.append(_blank_target(i, fail=kind, outs=outs(i), tags=["no-cache"] if uncached == "tag" else []))
+                T.append(_blank_target(i + 1, deps=[i]))
+                T.append(_blank_target(i + 2, deps=[i + 1]))
+            T.append(_blank_target(len(T)))
+            out.append(dict(base, designed="missing-output-uncached", cfg=dict(cfg0, num_workers=4, enable_cache=uncached == "tag"), targets=T,
+                            history=[{"op": "build"}, {"op": "nothing"}, {"op": "build"}]))
         for nf in ([256, 512] if rng.random() < 0.5 else [512, 256]):
             T = [_blank_target(0)]
             for i in range(1, nf + 1):
